@@ -372,7 +372,11 @@ class FastObjectUpdateCompressedDataDeserializer:
             flags, owner_id = foo
         scale = Vector3(scalex, scaley, scalez)
         full_id = UUID(bytes=full_id)
-        pcode = tmpls.PCode(pcode)
+        try:
+            pcode = tmpls.PCode(pcode)
+        except ValueError:
+            # The template keeps kinds it has no name for as plain numbers as well
+            pass
         if pcode == tmpls.PCode.AVATAR:
             state = tmpls.AgentState(state)
         elif pcode == tmpls.PCode.PRIMITIVE:
